@@ -29,6 +29,7 @@ var rules = map[string]ruleFn{
 	"C14": ruleC14,
 	"C15": ruleC15,
 	"C16": ruleC16,
+	"C17": ruleC17,
 	"C18": ruleC18,
 	"C19": ruleC19,
 	"C20": ruleC20,
